@@ -22,9 +22,16 @@ void harness(void){
   verif_ghost_init();
   verif_mk_cfg(&verif_cfg);
   char *e = verif_mk_string(8000);
-  n_disp = 0; depth = 0;
-  snoopy_error_handler(e);
-  if (verif_cfg.error_logging_enabled != SNOOPY_TRUE) __CPROVER_assert(n_disp == 0, "error handler: error logging off => no record of any kind");
-  else __CPROVER_assert(n_disp == 1, "error handler: error logging on => one separate error record");
+  /* two consecutive calls in one thread, each under an arbitrary setting of error_logging: the second must behave exactly as it would
+     in a fresh process (nothing may be carried from one call to the next outside the configuration record - C11) */
+  for (int call = 0; call < 2; call++) {
+    verif_cfg.error_logging_enabled = nondet_int();
+    int enabled = (verif_cfg.error_logging_enabled == SNOOPY_TRUE);
+    n_disp = 0; depth = 0;
+    snoopy_error_handler(e);
+    if (!enabled) __CPROVER_assert(n_disp == 0, "error handler: error logging off => no record of any kind");
+    else __CPROVER_assert(n_disp == 1, "error handler: error logging on => one separate error record (whatever earlier calls did)");
+    __CPROVER_assert((verif_cfg.error_logging_enabled == SNOOPY_TRUE) == enabled, "error handler: the configured error_logging setting is what it was");
+  }
   VERIF_CANARY();
 }
